@@ -520,6 +520,7 @@ pub fn run(plan: &Plan, sp: &SpawnPlan) -> FamOut {
         }
         // C08 over the whole history
         judge_leaks();
+        judge_release_on_std_close();
         judge_eof_propagation(&mut kept);
         // release
         kill_all_children();
@@ -929,10 +930,13 @@ pub fn judge_leaks() {
             if s.k.pipes[pi].origin != Origin::Lib {
                 continue;
             }
+            let role = pipe_role(pi);
             if own.contains(d) {
+                // a second descriptor for one of the child's own standard streams: closing the
+                // stream (a daemonizing child closes 0, 1 and 2) does not release the pipe
+                violate("fd_leak_child", format!("fd_leak_child/extra_copy_of_own_stream/pipe={}/end={}", role, end), format!("child {} ({:?}) holds descriptor {} = a second descriptor for the {} end of the pipe that is also one of its standard streams ({}): closing the standard stream does not give the other side end-of-file", c.pid, c.kind, fd, end, role));
                 continue;
             }
-            let role = pipe_role(pi);
             let cross = match (s.k.pipes[pi].creator, c.forked_by) {
                 (Some(a), Some(b)) => a != b,
                 _ => false,
@@ -957,6 +961,65 @@ pub fn judge_leaks() {
     for k in cross_kinds {
         sim().k.probe(k);
     }
+}
+
+/// C08, the consequence, for children that stay alive: once every child (and descendant) has
+/// closed its standard streams - what a daemonizing program does - every library pipe whose
+/// other end the parent holds must be widowed, although the processes are all still running.
+/// Destructive (closes the children's descriptors): run it last, before the children are killed.
+pub fn judge_release_on_std_close() {
+    let s = sim();
+    if s.poisoned.is_some() {
+        return;
+    }
+    let pids: Vec<i32> = s.k.procs.values().filter(|c| c.pid != PARENT_PID && c.alive() && c.state != PState::PreExec && c.exec.is_some()).map(|c| c.pid).collect();
+    if pids.is_empty() {
+        return;
+    }
+    for pid in pids.iter() {
+        for fd in 0..3 {
+            let _ = s.k.k_close(*pid, fd);
+        }
+    }
+    let parent_descs: Vec<usize> = s.k.procs.get(&PARENT_PID).map(|p| p.fds.values().map(|e| e.desc).collect()).unwrap_or_default();
+    for pi in 0..s.k.pipes.len() {
+        let (origin, rdesc, wdesc, r_open, w_open, creator) = {
+            let p = &s.k.pipes[pi];
+            (p.origin, p.rdesc, p.wdesc, p.r_open, p.w_open, p.creator)
+        };
+        if origin != Origin::Lib {
+            continue;
+        }
+        let parent_reads = parent_descs.contains(&rdesc);
+        let parent_writes = parent_descs.contains(&wdesc);
+        // the parent holding both ends is its own business (nothing here does)
+        let (stuck, desc, what) = if parent_reads && !parent_writes && w_open {
+            (true, wdesc, "write")
+        } else if parent_writes && !parent_reads && r_open {
+            (true, rdesc, "read")
+        } else {
+            (false, 0, "")
+        };
+        if !stuck {
+            continue;
+        }
+        let h: Vec<(i32, PKind, Option<u8>, Vec<i32>)> = s.k.procs.values().filter(|c| c.pid != PARENT_PID && c.alive()).filter_map(|c| {
+            let fds: Vec<i32> = c.fds.iter().filter(|(_, e)| e.desc == desc).map(|(fd, _)| *fd).collect();
+            if fds.is_empty() { None } else { Some((c.pid, c.kind, c.forked_by, fds)) }
+        }).collect();
+        if h.is_empty() {
+            continue;
+        }
+        let cross = h.iter().any(|(_, _, fb, _)| fb.is_some() && creator.is_some() && *fb != creator);
+        let role = pipe_role(pi);
+        violate(
+            "eof_blocked_by_stranger",
+            if cross { "eof_blocked_by_stranger/cause=concurrent_spawn_on_other_thread".to_string() } else { format!("eof_blocked_by_stranger/after=children_closed_std_streams/pipe={}/end={}", role, what) },
+            format!("every child has closed its standard streams, but the {} end of a library pipe ({}) whose other end the parent holds is still open in {:?}: no end-of-file / broken pipe until those processes exit", what, role, h),
+        );
+        sim().k.probe("std_close_release_violated");
+    }
+    sim().k.probe("std_close_release_checked");
 }
 
 /// what a library-created pipe is used for, judged from who holds its ends at exec time
